@@ -9,6 +9,7 @@ import vlib
 
 ENGINE = {"C01", "C02", "C03", "C04", "C05", "C09"}
 RESOLVE = {"C06", "C07", "C08", "C10"}
+APP = {"C12", "C13", "C14"}
 
 
 def setup():
@@ -40,6 +41,9 @@ def main():
     if a.prop in RESOLVE:
         import check_resolve
         return check_resolve.run_check(a.prop, a.tier, a.replay)
+    if a.prop in APP:
+        import check_app
+        return check_app.run_check(a.prop, a.tier, a.replay)
     raise vlib.Infra("no check registered for %r" % a.prop)
 
 
